@@ -104,10 +104,10 @@ pub fn finish_sweep(prop: &mut dyn Prop, tier: Tier, rr: &RunResult) -> i32 {
     let mut machinery_error = false;
     for (sig, (idx, count, detail)) in &rr.viols {
         // determinism: replay the first occurrence in a fresh process; the signature must reproduce
-        let again = crate::runner::replay_in_subprocess(&id, tier, *idx).unwrap_or_else(|e| format!("replay-error:{}", e));
+        let (again, desc) = crate::runner::replay_in_subprocess(&id, tier, *idx).unwrap_or_else(|e| (format!("replay-error:{}", e), None));
         let crash_like = sig.starts_with("killed-by-signal") || sig == "hang" || sig == "huge-allocation" || sig.starts_with("exit-");
         let reproduced = &again == sig || (crash_like && again.starts_with("crash:"));
-        let path = write_replay(&id, tier, sig, json!({"idx": idx, "case": prop.describe(*idx), "detail": detail, "occurrences": count, "replayed_sig": again}));
+        let path = write_replay(&id, tier, sig, json!({"idx": idx, "case": desc.unwrap_or_else(|| prop.describe(*idx)), "detail": detail, "occurrences": count, "replayed_sig": again}));
         viol_json.push(json!({"sig": sig, "first_idx": idx, "count": count, "detail": detail, "replay": path, "reproduced": reproduced}));
         if !reproduced {
             println!("MACHINERY-ERROR property={} case {} gave '{}' then '{}' on replay (nondeterminism); replay={}", id, idx, sig, again, path);
